@@ -40,7 +40,7 @@ func FuzzC06HTTP(f *testing.F) {
 		req.Header = http.Header{"Content-Type": {"application/json"}, "Accept": {"application/json, text/event-stream"}, "Mcp-Session-Id": {sid}}
 		rec := httptest.NewRecorder()
 		srv.Handler().ServeHTTP(rec, req) // a panic fails the target
-		ex2 := exchangeFromHTTP(rec.Code, rec.Header(), rec.Body.Bytes())
+		ex2 := exchangeFromHTTP(rec.Code, rec.Result().Header, rec.Body.Bytes())
 		for _, fr := range ex2.Frames {
 			if _, fail := decodeFrame(fr, true); fail != nil {
 				t.Fatalf("%s (input %q)", fail.Error(), body)
